@@ -5,6 +5,7 @@
 import Rtp.Proofs.H264Obs
 import Rtp.Proofs.H264Split
 import Rtp.Proofs.H264History
+import Rtp.Proofs.H264Agg
 namespace Rtp.Props.C10
 open Rtp Rtp.Model Rtp.Model.H264 Rtp.Model.H264.Obs Rtp.Spec.Rfc6184 Rtp.Pred Rtp.Proofs.H264
 
@@ -94,11 +95,41 @@ def payloads (disable : Bool) (calls : List C10.RtCall) : List Bytes := fragsCal
 theorem c10_shape (disable : Bool) (calls : List C10.RtCall) (hw : HistWF calls) :
     ∃ plan, parse (payloads disable calls) = some plan ∧ plan.all Item.wf = true ∧
       plan.flatMap Item.nals = delivered disable (calls.flatMap C10.RtCall.nals) ∧
-      (payloads disable calls).map isPartitionHead = plan.flatMap Item.heads := by
-  obtain ⟨plan, e, w, ha, k⟩ := history_plan disable calls hw
-  refine ⟨plan, ?_, w, k, ?_⟩
+      (payloads disable calls).map isPartitionHead = plan.flatMap Item.heads ∧
+      (disable = true → ∀ it ∈ plan, it.isStap = false) := by
+  obtain ⟨plan, e, w, ha, kg, k⟩ := history_plan disable calls hw
+  refine ⟨plan, ?_, w, k, ?_, ?_⟩
   · rw [payloads, e]; exact parse_encode plan w
   · rw [payloads, e]; exact heads_plan plan w ha
+  · intro hd it hit
+    subst hd
+    have := (stepsOut_disable (none, none) (calls.flatMap C10.RtCall.tagged)).2 it.group
+      (by rw [← kg]; exact List.mem_map_of_mem hit)
+    simpa [Item.group] using this
+
+/-- c10_stapa.  "SPS/PPS arrive as one STAP-A before the next unit": on histories whose parameter
+    sets come as SPS,PPS pairs followed by a unit, whenever `5 + |sps| + |pps|` fits the MTU of the
+    call that hands over that unit, the packet carrying the SPS is a STAP-A that carries the PPS
+    too (`aggOk`); with STAP-A disabled no STAP-A is sent at all. -/
+theorem c10_stapa (disable : Bool) (calls : List C10.RtCall) (hw : HistWF calls)
+    (hp : disable = true ∨ paired (calls.flatMap C10.RtCall.nals) = true) :
+    ∃ plan, parse (payloads disable calls) = some plan ∧
+      aggOk disable (keepT (calls.flatMap C10.RtCall.tagged)) plan = true := by
+  obtain ⟨plan, e, w, _, kg, _⟩ := history_plan disable calls hw
+  refine ⟨plan, by rw [payloads, e]; exact parse_encode plan w, ?_⟩
+  cases disable with
+  | true =>
+    simp only [aggOk, if_true, List.all_eq_true, Bool.not_eq_true']
+    intro it hit
+    have := (stepsOut_disable (none, none) (calls.flatMap C10.RtCall.tagged)).2 it.group
+      (by rw [← kg]; exact List.mem_map_of_mem hit)
+    simpa [Item.group] using this
+  | false =>
+    rcases hp with hp | hp
+    · cases hp
+    · simp only [aggOk, Bool.false_eq_true, if_false, kg]
+      apply agg_paired
+      rw [tagged_snd]; exact hp
 
 /-- c10_roundtrip.  For every history of calls, feeding all payloads in order to an H264Packet in
     ANY state (fresh included) yields a value for each payload, and the values concatenate to the
@@ -109,7 +140,7 @@ theorem c10_roundtrip (disable avc : Bool) (calls : List C10.RtCall) (hw : HistW
     (∀ r ∈ (run avc buf (payloads disable calls)).1, r.isOk = true) ∧
     (run avc buf (payloads disable calls)).1.flatMap C10.resBytes =
       frame avc (delivered disable (calls.flatMap C10.RtCall.nals)) := by
-  obtain ⟨plan, e, w, _, k⟩ := history_plan disable calls hw
+  obtain ⟨plan, e, w, _, _, k⟩ := history_plan disable calls hw
   rw [payloads, e, ← k]
   exact c10_decoder avc plan w buf
 
@@ -139,13 +170,25 @@ theorem c10_rt_pred (i : C10.RtInput) : C10.rtOk i (rtModel i) = true := by
   by_cases hwf : i.wf = true
   · right
     have hw := callWF_of_wf i hwf
-    obtain ⟨plan, e, w, ha, k⟩ := history_plan i.disable i.calls hw
+    obtain ⟨plan, e, w, ha, kg, k⟩ := history_plan i.disable i.calls hw
     have kexp : plan.flatMap Item.nals = i.expected := by
       rw [k]; exact expected_of_wf i hwf
+    have hexpT : i.expectedT.map (·.2) = i.expected := by
+      have := keepT_map i.tagged
+      simp only [keepT, keep, C10.RtInput.tagged, tagged_snd] at this
+      exact this
+    have hagg : aggOk i.disable i.expectedT plan = true := by
+      have hp : i.disable = true ∨ paired (i.calls.flatMap C10.RtCall.nals) = true := by
+        simp only [C10.RtInput.wf, Bool.and_eq_true, Bool.or_eq_true] at hwf
+        exact hwf.2
+      obtain ⟨plan', hp', ha'⟩ := c10_stapa i.disable i.calls hw hp
+      rw [payloads, e, parse_encode plan w] at hp'
+      cases hp'
+      exact ha'
     simp only [C10.RtObs.pkts, hflat]
     constructor
-    · simp only [C10.shapeOk, observePkts_payload, e, parse_encode plan w, w, kexp, observePkts_head,
-        heads_plan plan w ha, beq_self_eq_true, Bool.and_self]
+    · simp only [C10.shapeOk, observePkts_payload, e, parse_encode plan w, w, kexp, hexpT,
+        observePkts_head, heads_plan plan w ha, hagg, beq_self_eq_true, Bool.and_self]
     · have hp := run_plan i.avc plan w []
       have hr := observePkts_res i.avc [] (encode plan)
       rw [e]
